@@ -84,6 +84,7 @@ func plan(tier string, seed int64) []driver.Case {
 	cases = append(cases, sharedPlan(tier)...)
 	cases = append(cases, twicePlan(tier)...)
 	cases = append(cases, rotationPlan(tier)...)
+	cases = append(cases, outagePlan(tier)...)
 	return cases
 }
 
@@ -418,6 +419,9 @@ func runAlone(p params, em []emission) ([]int, bool) {
 // ---------------------------------------------------------------- one case
 
 func runCase(c driver.Case) driver.Result {
+	if c.Get("kind") == "outage" {
+		return runOutage(c)
+	}
 	if c.Get("kind") == "shared" {
 		return runShared(c)
 	}
